@@ -48,7 +48,47 @@ def post_hook(artifacts, rep, tier):
     return dict(prediction_clause_unbound_cases=n)
 
 
+def replay_product(case):
+    """product states of many qubits (more measured sites than a float64 mantissa has bits)"""
+    import scikit_tt.quantum_computation as qc
+    from scikit_tt.tensor_train import TT
+    n, meas = case['n'], list(case['meas'])
+    cores = []
+    for a0, a1 in case['amps']:
+        v = np.array([a0, a1], dtype=float)
+        cores.append((v / np.linalg.norm(v)).reshape(1, 2, 1, 1))
+    t = TT(cores)
+    u = np.array(case['u'], dtype=float)[:, :len(meas)] / 1024.0
+    rows = [tuple(r) for r in case['rows']]
+    want_rows = sorted(set(rows))
+    want_freq = [rows.count(r) / len(rows) for r in want_rows]
+    calls = []
+
+    def fake_rand(*shape):
+        calls.append(tuple(shape))
+        if tuple(shape) != u.shape:
+            raise _Unbound()
+        return u.copy()
+    try:
+        with mock.patch('numpy.random.rand', side_effect=fake_rand):
+            samples, probs = qc.sampling(t, meas, len(rows))
+    except _Unbound:
+        return [('@unbound', 'variates not drawn by one numpy.random.rand(samples, sites) call')]
+    except Exception as e:
+        return [('sampling:product:exception:%s' % type(e).__name__, 'sampling raised %r (n=%d)' % (e, n))]
+    got_rows = [tuple(int(x) for x in r) for r in np.asarray(samples).reshape(len(samples), -1)]
+    if got_rows != want_rows:
+        k = next((j for j, (a, b) in enumerate(zip(got_rows, want_rows)) if a != b), 0)
+        return [('sampling:product:samples', 'product state of %d qubits, %d measured: %d bit strings returned, %d predicted; first difference '
+                 'at string %d' % (n, len(meas), len(got_rows), len(want_rows), k))]
+    if len(set(got_rows)) != len(got_rows) or np.max(np.abs(np.asarray(probs) - np.array(want_freq))) > 1e-12:
+        return [('sampling:product:frequencies', 'frequencies differ from the prediction (n=%d)' % n)]
+    return []
+
+
 def replay(case):
+    if case.get('prod'):
+        return replay_product(case)
     import scikit_tt.quantum_computation as qc
     from scikit_tt.tensor_train import TT
     out = []
@@ -121,7 +161,10 @@ def runs(tier):
     c = dict(MaxN=4, RanksS={1, 2} if q else {1, 2, 3}, Kinds={'real', 'complex'}, Seeds={1, 2, 3} if q else {1, 2, 3, 4, 5},
              NSamples=12 if q else 24)
     return [dict(name='samp', module='Sampling', constants=c, invariants=['ChainRule', 'PrefixPossible'],
-                 constraints=['NoTieConstraint'])]
+                 constraints=['NoTieConstraint']),
+            # product states of 56 and 60 qubits
+            dict(name='prod', module='SamplingProd', nshards=4, invariants=['ProbOK'], constraints=['NoTieConstraint'],
+                 constants=dict(NQ={56, 60}, NSamples=12 if q else 40, Seeds={1, 2} if q else {1, 2, 3, 4}))]
 
 
 def main(tier):
